@@ -15,6 +15,38 @@ CHECKS = {
         note="Trusted: vlib/oracle.py (two independent transcriptions cross-checked), Hypothesis. weights/repetitions "
              "constructor arguments are ignored by the library and not exercised.",
         design="6/C01"),
+    "C02": dict(
+        technique="property-based testing (Hypothesis) + exhaustive small-scope enumeration against per-pair reference costs",
+        text="Every entry of the pairwise cost table is compared with the per-pair definition in exact arithmetic on "
+             "generated (scheme, dataset) cases and on all datasets with n<=3 (thorough n<=4); mirror consistency and "
+             "positions==bucket-ids are bit-exact; entries selected by generated candidates are summed and compared "
+             "with the reference and library scores. Exploration of the input space, not a proof.",
+        note="Trusted: vlib/oracle.py, Hypothesis; element ids resolved through dataset.mapping_elem_id (validated as a "
+             "bijection in the check, full consistency is C16's).",
+        design="6/C02"),
+    "C03": dict(
+        technique="property-based testing (Hypothesis) of a validity predicate over every algorithm configuration",
+        text="31 algorithm configurations (incl. nested starters/auxiliaries, get_algorithm defaults, both solver "
+             "back-ends) x generated schemes/datasets/flags/RNG seeds; the consensus must be well-formed over exactly "
+             "the universe; documented refusals are 'not accepted', any other exception is a violation.",
+        note="CPLEX code paths run against a stand-in exact 0-1 ILP solver (real CPLEX unavailable offline).",
+        design="6/C03"),
+    "C04": dict(
+        technique="property-based testing (Hypothesis): reported score vs exact reference score of every returned ranking",
+        text="Same configuration space as C03 with extra weight on algorithms that supply their own score (BioConsert "
+             "bookkeeping, solver objective, PickAPerm minimum) and on empty/zero ILP objectives; reported score must be "
+             "a real number within 1e-6 of the exact score of each returned ranking.",
+        note="Trusted: vlib/oracle.py; stand-in solver for CPLEX paths.",
+        design="6/C04"),
+    "C05": dict(
+        technique="differential property-based testing (Hypothesis) against an independent exact optimiser (subset DP)",
+        text="Exact configurations with CPLEX absent (must answer through the free solver) and with the CPLEX API "
+             "present (stand-in) on generated instances incl. Condorcet-like cycles and rankings missing a whole "
+             "component; returned score must equal the DP optimum, and the set returned when all optima are requested "
+             "must equal the DP's set of minimisers. Decided up to n<=9 (PuLP) / n<=6 (stand-in).",
+        note="Trusted: oracle DP (cross-checked against brute force in every worker), stand-in ILP solver (self-tested "
+             "against brute force); says nothing about real CPLEX numerics.",
+        design="6/C05"),
 }
 
 SETUP = ("/venv/bin/python -c 'import hypothesis' 2>/dev/null || /venv/bin/pip install --no-index --find-links "
